@@ -29,17 +29,31 @@ def describe(c):
 
 
 def perturbations(data, rng):
-    """(label, damaged bytes) for every content header of data."""
+    """(label, damaged bytes) for every content HEADER of data.  Headers are located structurally
+    (header line, then `length` bytes), because content may itself contain text like "length=3"."""
     out = []
-    for m in _LEN_RE.finditer(data):
-        eol = data.find(b'\n', m.end())
-        if eol < 0:
+    pos = 0
+    while pos < len(data):
+        k = data.find(b'\n', pos)
+        if k < 0:
+            break
+        line = data[pos:k]
+        if not line.strip():
+            pos = k + 1
             continue
-        remaining = len(data) - (eol + 1)
+        if not line.startswith(b'#'):
+            break                       # not a structure this walker understands: stop perturbing
+        m = _LEN_RE.search(line)
+        if not m:
+            pos = k + 1
+            continue
+        a, b = pos + m.start(1), pos + m.end(1)
+        remaining = len(data) - (k + 1)
         vals = [str(remaining + d).encode() for d in (1, 2, 3, 1000)]
         vals += [b'-1', b'-' + m.group(1), b'abc', b'1.5', b'1e3', b'0x10', b'9' * 25, b'+5']
         for v in vals:
-            out.append((v.decode(), data[:m.start(1)] + v + data[m.end(1):]))
+            out.append((v.decode(), data[:a] + v + data[b:]))
+        pos = k + 1 + int(m.group(1))
     return out
 
 
